@@ -735,7 +735,7 @@ func (e *env) startServer(d caseDesc) {
 	in := d.In
 	for attempt := 0; attempt < 4; attempt++ {
 		p, f := freePort(), 0
-		a := resolve(in.Addr, p, f, e.tmp, d.N)
+		a := resolve(in.Addr, p, f, e.tmp, d.N*100+attempt)
 		nat := naturalRef(in.Pos, a)
 		so := &startObs{Input: a, Natural: nat}
 		txt := jsonOf(e.buildList(in, a))
@@ -1192,12 +1192,13 @@ func (e *env) startListener(d caseDesc) {
 	}
 	for attempt := 0; attempt < 4; attempt++ {
 		p := freePort()
-		a := resolve(in.Addr, p, fport, e.tmp, d.N)
-		fwd := resolve(in.Fwd, p, fport, e.tmp, d.N)
+		uniq := d.N*100 + attempt
+		a := resolve(in.Addr, p, fport, e.tmp, uniq)
+		fwd := resolve(in.Fwd, p, fport, e.tmp, uniq)
 		var nat *ref
 		cli := ""
 		if in.Raw != "" {
-			cli = resolve(in.Raw, p, fport, e.tmp, d.N)
+			cli = resolve(in.Raw, p, fport, e.tmp, uniq)
 			nat = rawRef(in, cli)
 			a = cli
 			if pp := strings.Split(cli, "~"); len(pp) >= 2 {
